@@ -426,6 +426,35 @@ def c05h(prog, rep):
     rep.floor(R, "post-semicolon directive sites", n, 2)
 
 
+# places where a parenthesised group is skipped blindly (brackets balanced, nothing looked at), with the reason why no statement can be inside
+BLIND_PAREN_SKIPS = {
+    "parser::parse_exports": "the parameter list of an exported routine's signature (`exports Foo(A: Integer) name 'x'`): declarations only",
+}
+
+
+def c05i(prog, rep):
+    """C05.i — an anonymous routine can be written wherever an expression in parentheses can, and its statements get their own lines
+    only if the parser walks into the group (parse_parens -> parse_anonymous_routine).  skip_pair only balances brackets: it is
+    applied to `[` and `<` groups, and to a `(` only at reviewed sites where no expression can stand.  [defect: `raise Foo(procedure
+    begin X; Y; end);` kept `X; Y;` on the raise line]"""
+    R = "C05.i"
+    P = "pasfmt_core::defaults::parser::InternalDelphiLogicalLineParser::"
+    sites = [c for c in prog.who_calls(P + "skip_pair") if c.body.crate.startswith("pasfmt")]
+    n = 0
+    for c in sites:
+        b = c.body
+        leaf = [f for f in dominating_variant_facts(prog, b, c.bb) if f[0].startswith("get_current_token_type(") and f[0].count("@") == 2]
+        kinds = set(leaf[-1][2]) if leaf and leaf[-1][1] in ("is", "in") else {"?"}
+        n += 1
+        if kinds <= {"LBrack", "LessThan"}:
+            rep.ok(R, {"site": short(b.npath), "skips": sorted(kinds)})
+            continue
+        rep.check(short(b.npath) in BLIND_PAREN_SKIPS, R, "blind-skip-of-parentheses:%s" % short(b.npath),
+                  "%s skips a group that can start with `(` (%s) with skip_pair, which only balances brackets: an anonymous routine written inside gets no lines of its own, its statements stay "
+                  "joined on the line of the enclosing statement" % (short(b.npath), sorted(kinds)), where=c.where(), instance={"site": short(b.npath), "skips": sorted(kinds), "reason": BLIND_PAREN_SKIPS.get(short(b.npath), "UNREVIEWED")})
+    rep.floor(R, "skip_pair call sites", n, 4)
+
+
 def check_c05(prog, rep, tier, cfg):
     c05e(prog, rep)
     c05a(prog, rep)
@@ -435,6 +464,7 @@ def check_c05(prog, rep, tier, cfg):
     c05f(prog, rep)
     c05g(prog, rep)
     c05h(prog, rep)
+    c05i(prog, rep)
 
 
 PROPERTIES = {
